@@ -259,3 +259,101 @@ def run(m, o):
         obs['msg'] = cps(str(val)[:80]) if val is not None else []
     a['inplace'] = b(extra.get('inplace', False))
     return m.emit(name, r, a, out, res, same, obs, o.get('tag', ''))
+
+
+# ---- function-shaped operations (C15, C18, C19) ----------------------------------------------------
+EFFECT_GROUP = {'BOLDNESS': 'bold', 'ITALICS': 'ital', 'UNDERLINE': 'ul', 'BLINKING': 'blink', 'SWAP_BG_FG': 'swap',
+                'VISIBILITY': 'hide', 'CROSSED_OUT': 'cross', 'FONT_TYPE': 'font', 'SPACING': 'space', 'BOXING': 'box',
+                'OVERLINE': 'over', 'FG_COLOR': 'fg', 'BG_COLOR': 'bg', 'UL_COLOR': 'ulc', 'RESET': 'reset'}
+
+
+@op('pgs')
+def _pgs(m, o):
+    codes = list(o['codes'])
+    enc = o['enc']
+    if enc == 'str':
+        arg = ';'.join(str(c) for c in codes)
+    elif enc == 'ints':
+        arg = list(codes)
+    else:
+        arg = [str(c) for c in codes]
+    adderr = bool(o.get('adderr'))
+    a = {'codes': codes, 'enc': enc, 'adderr': b(adderr)}
+
+    def obs(v):
+        red = m.lib.settings_to_dict(v)
+        return {'res': m.texts.tids([str(x) for x in v]), 'red': m.texts.tids([str(x) for x in red.values()])}
+    return a, (lambda: m.lib.parse_graphic_sequence(arg, adderr)), 'scalar', {'obs': obs}
+
+
+@op('s2d')
+def _s2d(m, o):
+    A = m.lib.AnsiSetting
+    S = [A(t) for t in o['S']]
+    old_list = [A(t) for t in o['old']]
+    old = {}
+    for x in old_list:
+        old = m.lib.settings_to_dict([x], old)
+    S_before = [str(x) for x in S]
+    old_before = [(k, str(v)) for k, v in old.items()]
+    a = {'S': m.texts.tids(o['S']), 'old': m.texts.tids([str(v) for v in old.values()])}
+
+    def obs(v):
+        same = [str(x) for x in S] == S_before and [(k, str(val)) for k, val in old.items()] == old_before
+        return {'dict': [[EFFECT_GROUP.get(k.name, k.name), m.texts.tid(str(val))] for k, val in v.items()],
+                'args_same': b(same)}
+    return a, (lambda: m.lib.settings_to_dict(S, old)), 'scalar', {'obs': obs}
+
+
+def _try(fn):
+    """-> [1]+cps(result) or [0]+cps(exception type name)"""
+    out, v = guarded(fn)
+    if out == 'ok' and isinstance(v, str):
+        return [1] + cps(v)
+    return [0] + cps(out if out != 'ok' else 'nonstr:' + type(v).__name__)
+
+
+@op('pcs')
+def _pcs(m, o):
+    s = o['s']
+    allow = bool(o.get('allow', True))
+    acc = o.get('acc')
+    a = {'s': cps(s), 'allow': b(allow), 'acc': [] if acc is None else [cps(acc)]}
+    P = m.lib.ParsedAnsiControlSequenceString
+
+    def obs(v):
+        seqs = []
+        for idx, lst in v.sequences.items():
+            for q in lst:
+                seqs.append([idx, cps(q.sequence), cps(q.terminator)])
+        return {'unf': cps(v.unformatted_str), 'seqs': seqs,
+                'fmt': _try(lambda: v.formatted_str if isinstance(v.formatted_str, str) else v.formatted_str()),
+                'str': _try(lambda: str(v)), 'repr': _try(lambda: repr(v))}
+    return a, (lambda: P(s, allow, acc)), 'scalar', {'obs': obs}
+
+
+@op('helper')
+def _helper(m, o):
+    fn = getattr(m.lib, o['name'])
+    args = list(o['args'])
+    P = m.lib.ParsedAnsiControlSequenceString
+
+    def obs(v):
+        p = P(v)
+        return {'res': cps(v), 'unf': cps(p.unformatted_str),
+                'seqs': [[i, cps(q.sequence), cps(q.terminator)] for i, l in p.sequences.items() for q in l]}
+    return {'name': o['name'], 'args': args}, (lambda: fn(*args)), 'scalar', {'obs': obs}
+
+
+@op('aset')
+def _aset(m, o):
+    text = o['text']
+    A = m.lib.AnsiSetting
+
+    def call():
+        x = A(text)
+        xv1, xv2, xp1, xp2 = x.valid, x.valid, x.parsable, x.parsable      # valid first
+        y = A(text)
+        yp1, yv1, yp2 = y.parsable, y.valid, y.parsable                      # parsable first (the flags are cached)
+        return {'valid': [b(xv1), b(xv2), b(yv1)], 'parsable': [b(xp1), b(xp2), b(yp1), b(yp2)]}
+    return {'text': cps(text)}, call, 'scalar', {'obs': lambda v: v}
